@@ -36,7 +36,7 @@ void h_sm2_ciphertext_to_der(void)
 	CANARY("returned");
 }
 
-//@job name=sm2_do_decrypt props=C02,C06 enforce=sm2_do_decrypt replace=sm2_z256_point_from_bytes,sm2_z256_point_mul,sm2_z256_point_to_bytes,sm2_kdf,all_zero,gmssl_memxor,sm3_init,sm3_update,sm3_finish,memcmp,gmssl_secure_clear timeout=900
+//@job name=sm2_do_decrypt props=C02,C06,C12 enforce=sm2_do_decrypt replace=sm2_z256_point_from_bytes,sm2_z256_point_mul,sm2_z256_point_to_bytes,sm2_kdf,all_zero,gmssl_memxor,sm3_init,sm3_update,sm3_finish,memcmp,gmssl_secure_clear timeout=900
 void h_sm2_do_decrypt(void)
 {
 	INPUT(ct_in, W); SM2_KEY key; SM2_CIPHERTEXT *C = malloc(sizeof(SM2_CIPHERTEXT)); ASSUME(C != NULL); C->ciphertext_size = W.size;
